@@ -177,6 +177,32 @@ def _explore(out, tier, seed, facts, replay):
             if got_c != want_c and not (want_c is None and not got_c):
                 out.violation("cli-selection:%s" % opts_c[0], "verif -m mae -x %s %s verifies the entries %r, the option selects %r" % (ax_c, " ".join(opts_c), got_c, want_c),
                               {"argv": argv_c, "file": open(fnc).read()})
+        # a row whose lead time is missing (-999) adds no lead time and takes none away; times not on a whole hour are selected by
+        # their own time of day only (-tod 0 does not take 00:30, -tod 0.5 does)
+        import verif.data
+        import verif.input
+        fnm = os.path.join(tmpc, "cli_miss.txt")
+        with open(fnm, "w") as f_:
+            f_.write(open(fnc).read())
+            f_.write("1325376000 -999 1 60 10 100 3 4\n")
+            for l_ in leads_c:
+                f_.write("1325377800 %g 1 60 10 100 %g %g\n" % (l_, rng.randint(0, 20) / 2.0, rng.randint(0, 20) / 2.0))
+        for kw_, what_, want_ in (({}, "leadtimes", leads_c), ({}, "times", [1325376000, 1325377800, 1325462400]),
+                                  ({"tods": [0]}, "times", [1325376000, 1325462400]), ({"tods": [0.5]}, "times", [1325377800]),
+                                  ({"tods": [0, 0.5]}, "times", [1325376000, 1325377800, 1325462400]), ({"tods": [1]}, "times", None)):
+            nf += 1
+            try:
+                d_ = verif.data.Data([verif.input.Text(fnm)], **kw_)
+                got_ = [float(x) for x in getattr(d_, what_)]
+            except (SystemExit, datagen.ImplExit):
+                got_ = None
+            except Exception as e_:
+                out.violation("missing-leadtime-row" if not kw_ else "tod-selection", "Data([file]%s) raised %s: %s" % ("".join(", %s=%r" % kv for kv in kw_.items()), type(e_).__name__, e_),
+                              {"file": open(fnm).read(), "options": kw_})
+                continue
+            if got_ != (None if want_ is None else [float(x) for x in want_]):
+                out.violation("missing-leadtime-row" if not kw_ else "tod-selection", "Data([file]%s).%s is %r, expected %r (the file has a row with lead time -999 and a run at 00:30)"
+                              % ("".join(", %s=%r" % kv for kv in kw_.items()), what_, got_, want_), {"file": open(fnm).read(), "options": kw_})
     finally:
         shutil.rmtree(tmpc, ignore_errors=True)
     stats.update({
